@@ -26,6 +26,7 @@ git apply $OUT/patch.diff
 echo "== checks against /repo with the patch"
 cd /repo && git apply $OUT/patch.diff || { echo "patch does not apply to /repo"; exit 2; }
 cd /verif
+rm -rf /verif/.cache/evidence_backup && cp -r /verif/evidence /verif/.cache/evidence_backup
 RES=""
 for p in $PROPS; do
   o=$(./check $p 2>&1 | grep -E "VIOLATION|KNOWN|: ok" | head -3 | tr '\n' ';')
@@ -34,6 +35,7 @@ for p in $PROPS; do
   if [ -f replays/$p-1.txt ] && echo "$o" | grep -q VIOLATION; then cp replays/$p-1.txt $OUT/replay-$p.txt; fi
 done
 git -C /repo checkout -- .
+rm -rf /verif/evidence && mv /verif/.cache/evidence_backup /verif/evidence
 git -C /repo status --short | head -3
 cat > $OUT/meta.json <<EOM
 {
